@@ -85,6 +85,13 @@ def run(ctx):
             eq("vectorises-elementwise", float(arr[1]), float(ook.theory_BER(2 * mu, s0, s1)))
             arrp = ppm.theory_BER(np.array([mu, 1.5 * mu]), s0, s1, M, "hard")
             eq("vectorises-elementwise", float(arrp[1]), float(ppm.theory_BER(1.5 * mu, s0, s1, M, "hard")))
+            for dec_ in ("hard", "soft"):          # every argument an array, scales three decades apart
+                wide = ppm.theory_BER(np.array([mu, 1000 * mu]), np.array([s0, 1000 * s0]), np.array([s1, 1000 * s1]), M, dec_)
+                one = float(ppm.theory_BER(mu, s0, s1, M, dec_))
+                eq("vectorises-elementwise", float(wide[0]) + 1e-3, one + 1e-3, tol=3000)
+                eq("vectorises-elementwise", float(wide[1]) + 1e-3, one + 1e-3, tol=3000)
+            wo = ook.theory_BER(np.array([mu, 1000 * mu]), np.array([s0, 1000 * s0]), np.array([s1, 1000 * s1]))
+            eq("vectorises-elementwise", float(wo[1]), v, tol=2000)
             # monotone in mu
             ladder = [mu * f for f in (0.5, 0.8, 1.0, 1.3, 2.0)]
             for fn, name in ((lambda m: ook.theory_BER(m, s0, s1), "ook"), (lambda m: ppm.theory_BER(m, s0, s1, M, "soft"), "soft"), (lambda m: ppm.theory_BER(m, s0, s1, M, "hard"), "hard")):
@@ -112,6 +119,15 @@ def run(ctx):
             eq("threshold-translation-equivariant", (t2 - t1 - c) / mu + 1, 1.0, tol=400000)      # equal up to a few steps of the 1000-point threshold grid
             ev("inside", "threshold-inside-[mu0,mu1]", lo=sci(mu0 + 100), x=sci(t1 + 100), hi=sci(mu0 + mu + 100))
             tp = float(ppm.THRESHOLD_EST(e1, M))
+            # the same eye object queried for several orders in turn: each answer only depends on (mu0, mu1, s0, s1, M)
+            for Mq in (4, 64, 2, M):
+                got_q = float(ppm.THRESHOLD_EST(e1, Mq))
+                fresh_q = float(ppm.THRESHOLD_EST(eye(mu0=mu0, mu1=mu0 + mu, s0=s0, s1=s1), Mq))
+                eq("estimator-translation-invariant", got_q + 100, fresh_q + 100, tol=20)
+                bq = float(ppm.BER_analizer("estimator", eye_obj=e1, M=Mq, decision="hard"))
+                bf = float(ppm.BER_analizer("estimator", eye_obj=eye(mu0=mu0, mu1=mu0 + mu, s0=s0, s1=s1), M=Mq, decision="hard"))
+                if bf > 1e-200:
+                    eq("estimator-translation-invariant", bq, bf, tol=20000)
             ev("inside", "threshold-inside-[mu0,mu1]", lo=sci(mu0 + 100), x=sci(tp + 100), hi=sci(mu0 + mu + 100))
             if s0 == s1:
                 ev("inside", "ook-threshold-midpoint-for-equal-sigmas", lo=sci(mu0 + mu / 2 - mu / 900 + 100), x=sci(t1 + 100), hi=sci(mu0 + mu / 2 + mu / 900 + 100))
@@ -135,7 +151,7 @@ def run(ctx):
         G, NF = rnd.uniform(0, 40), rnd.uniform(3, 10)
         BWel = 10 ** rnd.uniform(8.5, 10.3)
         BWopt = BWel * rnd.uniform(1.5, 20)
-        r_, RL, Tk, NFel = rnd.uniform(0.1, 1.0), 10 ** rnd.uniform(1, 4), rnd.uniform(1, 400), 0.0
+        r_, RL, Tk, NFel = rnd.uniform(0.1, 1.0), 10 ** rnd.uniform(1, 4), (rnd.uniform(1, 400) if it % 6 else 0.0), 0.0     # T = 0 included
         wl = rnd.choice([1550e-9, 1310e-9])
         Mm = 2 if mod == "ook" else M
         with deadline(120):
